@@ -33,6 +33,10 @@ def handle : Json → Except String Json := fun j => do
   let tm := tableMap e (ests.map (Obj.toMap e)) (gts.map (Obj.toMap e))
   pure (Json.mkObj [
     ("ests", jList (objJson e) ests), ("gts", jList (objJson e) gts),
-    ("ego", jList (jList rowJson) te), ("map", jList (jList rowJson) tm)])
+    ("ego", jList (jList rowJson) te), ("map", jList (jList rowJson) tm),
+    ("same_gts_ego", jList (jList Json.bool) (sameTable gts)),
+    ("same_gts_map", jList (jList Json.bool) (sameTable (gts.map (Obj.toMap e)))),
+    ("same_ests_ego", jList (jList Json.bool) (sameTable ests)),
+    ("same_ests_map", jList (jList Json.bool) (sameTable (ests.map (Obj.toMap e))))])
 
 end PEval.Driver.C07
